@@ -60,6 +60,11 @@ CHECKS = {
     text="TLC checks on all DAGs of 4 nodes x namings that the assembly walk yields a closed, acyclic, unambiguous graph with one layer per node exactly when names are collision-free (and silently drops a node otherwise). For TLC-generated programs the harness re-walks each of three plan stages, calls every node's own _layer(), and logs key -> (layer, task token, referenced keys incl. key-shaped references that nothing defines, embedded expression/collection objects); TLC evaluates the five invariants on every such graph.",
     note="Trusted: TLC; dask.core.keys_in_tasks for dependency discovery plus a scan for key-shaped tuples of the plan's own names; task tokens from dask.base.tokenize. Graphs imported via persist/from_delayed/legacy are covered under C17.",
     design="5.3 C09"),
+ "C14": dict(
+    technique="TLA+ transcription of _fusion_pass / Fused._task model-checked by TLC over all small plan DAGs under every iteration order; enumerated shapes realised as real expression DAGs (plus nested re-optimization templates, seeded random DAGs and QueryGen programs); TLC validates fuse on vs off per output partition",
+    text="TLC runs the fusion loop on every well-formed plan DAG of N nodes (partition-wise or not, (npartitions, ndim) shapes, up to two operands, shared nodes), exploring every order in which the code may walk its sets, and checks that each output partition of the fused plan is the same symbolic term as in the unfused plan, that the layout is unchanged and that the loop ends within N passes. The enumerated shapes are realised through the API where a realisation exists and executed with fusion on and off - also with the root rebuilt over an already optimized operand and with operations applied to optimized collections, which is how nested groups arise - together with a template family of scalar chains broadcast into partition-wise ops, seeded random DAGs and TLC-generated query programs; TLC compares npartitions, divisions, schema and every partition's rows.",
+    note="Trusted: TLC; rows numbered by index label + values (labels ignored below merges, partitions as bags below hash/disk shuffles). MapPartitions' any-ndim broadcast rule and two-operand non-partition-wise nodes are not realised from shapes.",
+    design="5.2 C14"),
 }
 
 def main():
